@@ -410,3 +410,57 @@ def c07_8(ctx, r):
     src_mk = ctx.src(mk.node).replace('"', "'")
     okw = "_batch_{self._batch_index}" in src_mk and ".replace('.json', f'{suffix}.json')" in src_mk
     r.check(okre and okw, "writer names config_batch_<N>.json; reader parses batch_(\\d+).json", key_of(cli, "batch id agreement"), cli.loc(), "the batch config file name and the pattern run-jobs parses no longer agree")
+
+
+@rule(P, "C07.9", "T10", "the group's container options are applied only when enabled - at every site that consults them", min_obligations=2)
+def c07_9(ctx, r):
+    """Sibling agreement: HpcSubmitter._create_run_script (container set-up lines in run_batch_N.sh) and
+    AsyncHpcSubmitter.run (singularity wrapper) both consult submitter_params.singularity_params; each must act on it
+    only under `.enabled` - otherwise a group with the block present but disabled gets half of the container set-up."""
+    n = 0
+    for f in ctx.ix.functions.values():
+        if f.cls is None or f.cls.name not in ("HpcSubmitter", "AsyncHpcSubmitter"):
+            continue
+        cfg = None
+        for node in iter_own(f.node):
+            if not (isinstance(node, ast.Attribute) and node.attr == "singularity_params" and isinstance(node.ctx, ast.Load)):
+                continue
+            st = ctx.stmt_of(f, node)
+            if not (isinstance(st, ast.Assign) and isinstance(st.targets[0], ast.Name)):
+                continue
+            var = st.targets[0].id
+            cfg = ctx.cfg(f)
+            # uses of the local other than tests of itself / of .enabled
+            for cn in cfg.nodes:
+                if cn.kind not in ("stmt",) or cn.ast is st:
+                    continue
+                used = [x for x in ast.walk(cn.ast) if isinstance(x, ast.Attribute) and isinstance(x.value, ast.Name) and x.value.id == var and x.attr != "enabled"]
+                if not used:
+                    continue
+                forms = guard_forms(ctx, f, cn)
+                if f.name == "_make_singularity_command":
+                    continue
+                n += 1
+                ok = any(p and fm.replace(" ", "") in (f"{var}.enabled", "<SingularityParams.enabled>") for fm, p in forms)
+                r.check(ok, f"{f.short}: `{ctx.src(used[0])}` only under .enabled", key_of(f, f"container option {used[0].attr} applied although disabled"), f.loc(cn.ast),
+                        f"`{ctx.src(cn.ast)[:60]}` uses the group's singularity parameters without `{var}.enabled` having tested true (guards: {sorted(('' if p else 'not ') + fm for fm, p in forms)}): "
+                        "a group whose container block is present but disabled gets the container set-up in every batch script, while the sibling site still honours `enabled`",
+                        "the batch is submitted with that group's HPC parameters and run options")
+        # conditional expression / call sites that branch on the local (AsyncHpcSubmitter.run)
+    run = ctx.fn("AsyncHpcSubmitter.run", "C07.9")
+    for s in ctx.sites(run, short="AsyncHpcSubmitter._make_singularity_command"):
+        for cn in ctx.nodes_of(run, s.node):
+            n += 1
+            forms = guard_forms(ctx, run, cn)
+            ok = any(p and (fm.endswith(".enabled") or fm == "<SingularityParams.enabled>") for fm, p in forms)
+            r.check(ok, "the singularity wrapper is used only under .enabled", key_of(run, "wrapper although disabled"), s.loc, f"the wrapper script is created under {sorted(('' if p else 'not ') + fm for fm, p in forms)}",
+                    "run options")
+    if n < 2:
+        raise AnalysisError("C07.9", f"only {n} uses of singularity parameters recognised (run script set-up and the wrapper expected)")
+
+
+@rule(P, "C07.10", "T1+T13", "a dry-run hand-off counts as an active batch, so dry-run builds the same first-round batches", min_obligations=4)
+def c07_10(ctx, r):
+    from .c12 import c12_3
+
+    c12_3(ctx, r)
